@@ -54,6 +54,22 @@ type RCaseR struct {
 	Hex    string   `json:"hex,omitempty"`   // kind bytes
 	Spec   string   `json:"spec,omitempty"`  // kind struct
 	Note   string   `json:"note,omitempty"`
+	Flip   string   `json:"flip,omitempty"` // "dir" | "file": what <ruletmp>/flip is made into before the case runs
+}
+
+// applyFlip makes <ruletmp>/flip a directory or a regular file: the same path name changes kind
+// between cases of one run (a watch is encoded as dir= or path= by what the path is *now*).
+func applyFlip(kind string) {
+	if kind == "" || ruleTmp == "" {
+		return
+	}
+	p := filepath.Join(ruleTmp, "flip")
+	os.RemoveAll(p)
+	if kind == "dir" {
+		os.MkdirAll(p, 0o755)
+	} else {
+		os.WriteFile(p, []byte("x"), 0o644)
+	}
 }
 
 func (c RCaseR) canon() string { b, _ := json.Marshal(c); return string(b) }
@@ -236,6 +252,7 @@ func renderBytesOrErr(b []byte, err error) string {
 func runRImpl(c RCaseR) (o rObs) {
 	guardEnter(c)
 	defer guardLeave()
+	applyFlip(c.Flip)
 	defer func() {
 		if r := recover(); r != nil {
 			o.Panic = fmt.Sprint(r)
@@ -968,6 +985,10 @@ func genRuleLine(rng *rand.Rand, wantValid bool) RCaseR {
 	case x == 0: // file watch
 		paths := []string{filepath.Join(ruleTmp, "file1"), filepath.Join(ruleTmp, "dir1"), filepath.Join(ruleTmp, "dir1") + "/", filepath.Join(ruleTmp, "nonexistent"), "/etc/passwd", filepath.Join(ruleTmp, "dir1", "..", "file1"), "relative/path", "/"}
 		p := paths[rng.Intn(len(paths))]
+		if rng.Intn(5) == 0 {
+			p = filepath.Join(ruleTmp, "flip")
+			c.Flip = []string{"dir", "file"}[rng.Intn(2)]
+		}
 		if !filepath.IsAbs(p) {
 			c.Valid = false
 		}
@@ -975,6 +996,10 @@ func genRuleLine(rng *rand.Rand, wantValid bool) RCaseR {
 		if rng.Intn(4) > 0 {
 			ps := []string{"r", "w", "x", "a", "rw", "wa", "rwxa", "xa", "ar"}[rng.Intn(9)]
 			add(Occ{Flag: "p", Value: ps})
+			// -p may be given more than once: the permissions accumulate
+			for k := rng.Intn(3); k > 0 && rng.Intn(3) == 0; k-- {
+				add(Occ{Flag: "p", Value: []string{"r", "w", "x", "a", "wa", "rx"}[rng.Intn(6)]})
+			}
 		}
 		for k := rng.Intn(3); k > 0; k-- {
 			add(Occ{Flag: "k", Value: []string{"key1", "k2,k3", "a-b"}[rng.Intn(3)]})
@@ -995,6 +1020,12 @@ func genRuleLine(rng *rand.Rand, wantValid bool) RCaseR {
 		av := action + "," + list
 		if rng.Intn(2) == 0 {
 			av = list + "," + action
+		}
+		if !wantValid && rng.Intn(25) == 0 {
+			// not exactly one list and one action: too many words, too few, a repeated kind, padding
+			av = []string{action + "," + list + ",never", "task," + action + "," + list, list + "," + action + "," + list, action, list, "",
+				action + "," + action, list + "," + list, action + ", " + list, " " + action + "," + list + " ", action + ",," + list, "," + action + "," + list}[rng.Intn(12)]
+			c.Valid = false
 		}
 		add(Occ{Flag: fl, Value: av, Eq: eq()})
 		nf := rng.Intn(5)
